@@ -573,4 +573,36 @@ theorem refFinderCU_leftmost (o : Opts) (ncaps : Nat) (node : Node) (units : Lis
       rw [this]; rfl
 
 
+
+/-! ### unicode mode: indices through the position map -/
+
+/-- positions of the lenient decoding: `bounds 0 (decode units)` has one entry per rune boundary -/
+theorem bounds_getD_le (units : List Nat) (x : Nat) (hx : x ≤ (decode units).length) :
+    (bounds 0 (decode units)).getD x 0 ≤ units.length := by
+  have h := bounds_get (decode units) 0 x hx
+  have h2 := totalSize_take_le (decode units) x
+  rw [totalSize_decode] at h2
+  simp [List.getD, h]; omega
+
+theorem bounds_getD_mono (units : List Nat) (a b : Nat) (hab : a ≤ b) (hb : b ≤ (decode units).length) :
+    (bounds 0 (decode units)).getD a 0 ≤ (bounds 0 (decode units)).getD b 0 := by
+  have h1 := bounds_get (decode units) 0 a (by omega)
+  have h2 := bounds_get (decode units) 0 b hb
+  have h3 := totalSize_take_mono (decode units) hab
+  simp [List.getD, h1, h2]; omega
+
+/-- Unicode mode: a match of the reference matcher found from the rune position whose UTF-16 index is `start`,
+reported through the position map, satisfies start ≤ s ≤ e ≤ |units| in UTF-16 code units. -/
+theorem refFind_unicode_indices (o : Opts) (ncaps : Nat) (node : Node) (units : List Nat) (i j : Nat) (st : St)
+    (h : refFind o ((decode units).map Prod.fst).toArray ncaps node i = some (j, st)) :
+    let pm := bounds 0 (decode units)
+    pm.getD i 0 ≤ pm.getD j 0 ∧ pm.getD j 0 ≤ pm.getD st.pos 0 ∧ pm.getD st.pos 0 ≤ units.length := by
+  intro pm
+  have hb := findFrom_bounds o _ ncaps node _ i j st h
+  have hsz : ((decode units).map Prod.fst).toArray.size = (decode units).length := by simp
+  rw [hsz] at hb
+  exact ⟨bounds_getD_mono units i j hb.1 (by omega), bounds_getD_mono units j st.pos hb.2.1 hb.2.2,
+    bounds_getD_le units st.pos hb.2.2⟩
+
+
 end GojaModel.C20.Ref
